@@ -325,7 +325,14 @@ func runV1(c *v1.Client, o *Op) (out Outcome) {
 		}
 		return okOut()
 	case "setFailure":
-		v1.EmulateFailure(c, v1.FailureCondition(o.F))
+		switch {
+		case o.Legacy && o.F == "none":
+			v1.DeactiveForceFailure(c)
+		case o.Legacy && o.F == "deprecated":
+			v1.ActiveForceFailure(c)
+		default:
+			v1.EmulateFailure(c, v1.FailureCondition(o.F))
+		}
 		return okOut()
 	case "activateNative":
 		c.ActivateNativeInterpreter()
